@@ -146,6 +146,9 @@ GridGlobal::GridGlobal(AccelerationContext const *acc, GridGlobal const *global,
 }
 
 void GridGlobal::setTensors(MultiIndexSet &&tset, int cnum_outputs, TypeOneDRule crule, double calpha, double cbeta){
+    // the only step that can fail (e.g., not enough tabulated levels), must come before any change to the grid
+    OneDimensionalWrapper new_wrapper(custom, tset.getMaxIndex(), crule, calpha, cbeta);
+
     clearGpuNodes();
     clearGpuValues();
     tensor_refs = std::vector<std::vector<int>>();
@@ -164,7 +167,7 @@ void GridGlobal::setTensors(MultiIndexSet &&tset, int cnum_outputs, TypeOneDRule
 
     max_levels = MultiIndexManipulations::getMaxIndexes(tensors);
 
-    wrapper = OneDimensionalWrapper(custom, *std::max_element(max_levels.begin(), max_levels.end()), rule, alpha, beta);
+    wrapper = std::move(new_wrapper);
 
     MultiIndexManipulations::computeActiveTensorsWeights(tensors, active_tensors, active_w);
 
@@ -183,7 +186,12 @@ void GridGlobal::setTensors(MultiIndexSet &&tset, int cnum_outputs, TypeOneDRule
 }
 
 void GridGlobal::proposeUpdatedTensors(){
-    wrapper = OneDimensionalWrapper(custom, updated_tensors.getMaxIndex(), rule, alpha, beta);
+    try{
+        wrapper = OneDimensionalWrapper(custom, updated_tensors.getMaxIndex(), rule, alpha, beta);
+    }catch(...){ // e.g., not enough tabulated levels, the grid is unchanged and there is no pending update
+        updated_tensors = MultiIndexSet();
+        throw;
+    }
 
     MultiIndexManipulations::computeActiveTensorsWeights(updated_tensors, updated_active_tensors, updated_active_w);
 
